@@ -506,11 +506,11 @@ Definition check_dim (c : cfg) (st : state) (n i : Z) : R unit :=
 (* Arrays.set(name, [i], value) with the value on top of the current stack frame *)
 Definition set_array (c : cfg) (st : state) (n i : Z) : R unit :=
   let st0 := if is_strobj (top_obj st) then fix_temporaries st else st in
-  (* view_buffer(name, index)[:] = to_type(sigil, value).to_bytes(): the right-hand side is evaluated first *)
+  (* value = to_type(sigil, value); buffer = view_buffer(name, index); buffer[:] = value.to_bytes()   (fix D10e:
+     the value's pointer is read after the array was dimensioned, which may have collected) *)
   if is_strobj (top_obj st0) then
-    let p := optr st0 (top_obj st0) in
     doR (st1, _) <- check_dim c st0 n i;
-    retR (set_loc st1 (LArr n (Z.to_nat i)) p) tt
+    retR (set_loc st1 (LArr n (Z.to_nat i)) (optr st1 (top_obj st1))) tt
   else errR st0 13.
 
 (* Arrays.erase_ *)
